@@ -3,6 +3,7 @@
 //! case:  op | inputs for the Lean model | implementation result | oracle verdict
 mod util;
 mod c12;
+mod c14;
 mod c16;
 mod c17;
 mod c18;
@@ -27,6 +28,7 @@ fn main() {
             let thorough = args.iter().any(|a| a == "--thorough");
             c12::run(&mut rng, n, slice % 16, 16, thorough)
         }
+        "C14" => c14::run(&mut rng, n, args.iter().any(|a| a == "--thorough")),
         "C16" => c16::run(&mut rng, n),
         "C17" => c17::run(&mut rng, n),
         "C18" => c18::run(&mut rng, n),
